@@ -20,6 +20,7 @@ import (
 	"testing"
 	"time"
 
+	"github.com/codenotary/immudb/embedded/appendable"
 	"github.com/codenotary/immudb/embedded/store"
 	"pgregory.net/rapid"
 
@@ -78,6 +79,7 @@ type scanCall struct {
 	w        own
 	out      res
 	nw       int
+	extra    bool // added at run time (see K05a)
 }
 
 type readRec struct {
@@ -383,7 +385,7 @@ func (w *world) genTxStep0(t *txProg) *step {
 		if err := w.begin(t); err != nil {
 			w.c.Failf(rt, w.dump(), "NewTx: %v", err)
 		}
-		if rapid.IntRange(0, 9).Draw(rt, "requireMVCC") == 0 {
+		if rapid.IntRange(0, 24).Draw(rt, "requireMVCC") == 0 {
 			// as catalog-changing SQL txs do: later snapshots must include this tx
 			t.tx.RequireMVCCOnFollowingTxs(true)
 			w.c.Label("require-mvcc-on-following-txs")
@@ -548,9 +550,27 @@ func (w *world) genTxStep0(t *txProg) *step {
 				return
 			}
 			nw := nw0
-			for i := range rec.calls {
-				cl := &rec.calls[i]
+			planned := rec.calls
+			rec.calls = make([]scanCall, 0, len(planned)+4)
+			// known finding K05a: a pass whose recorded reads end with own writes is not validated. While the probe
+			// fires, such a pass is not generated: it goes on reading until a committed entry or the end is returned.
+			completePass := func() {
+				for excluded(kReaderOwnTail) && len(rec.calls) > 0 {
+					last := rec.calls[len(rec.calls)-1]
+					if (last.kind != 'r' && last.kind != 'b') || last.out.status != stFound || !last.out.isOwn {
+						return
+					}
+					vk.CountExcluded(kReaderOwnTail)
+					k, ref, err := r.Read(ctx)
+					rec.calls = append(rec.calls, scanCall{kind: 'r', nw: nw, out: capture(k, ref, err), extra: true})
+				}
+			}
+			for i := range planned {
+				cl := &planned[i]
 				cl.nw = nw
+				if cl.kind == 'R' || cl.kind == 'W' {
+					completePass()
+				}
 				switch cl.kind {
 				case 'r':
 					k, ref, err := r.Read(ctx)
@@ -569,7 +589,9 @@ func (w *world) genTxStep0(t *txProg) *step {
 						cl.out = res{err: "Reset: " + err.Error()}
 					}
 				}
+				rec.calls = append(rec.calls, *cl)
 			}
+			completePass()
 			if err := r.Close(); err != nil {
 				rec.err = "reader Close: " + err.Error()
 			}
@@ -951,6 +973,7 @@ func genWorld(rt *rapid.T, c *vk.Case) *world {
 	cfg := stx.GenCfg(rt)
 	cfg.Synced = rapid.IntRange(0, 7).Draw(rt, "syncedStore") == 0
 	cfg.CleanupPct = 0
+	cfg.Compression = appendable.NoCompression // irrelevant here, and a compressor is allocated per appended value
 	cfg.MaxActiveTx = 1000
 	cfg.MaxKeyLen, cfg.MaxValueLen, cfg.MaxTxEntries = 64, 64, 64
 	cfg.FileSize = rapid.SampledFrom([]int{512, 4096, 1 << 20}).Draw(rt, "fileSize2")
@@ -997,7 +1020,7 @@ func genWorld(rt *rapid.T, c *vk.Case) *world {
 }
 
 func TestSerializable(t *testing.T) {
-	vk.Check(t, 2000, 200000, func(rt *rapid.T, c *vk.Case) {
+	vk.Check(t, 2000, 120000, func(rt *rapid.T, c *vk.Case) {
 		w := genWorld(rt, c)
 		c.Descf("cfg=%s multi=%v slowBulk=%v U=%q", w.cfg, w.multi, w.slowBulk, w.universe)
 		w.dir = vk.Dir()
